@@ -667,6 +667,17 @@ func (e *SpecEnv) call(n *SCall, old bool) Term {
 			t.GT = gt
 			return t
 		}
+	case "captured":
+		// captured(c): a call matching capture c's pattern has been executed on this path (so c holds its result)
+		need(1)
+		id, ok := n.Args[0].(*SIdent)
+		if !ok {
+			e.fail("captured needs the name of a capture")
+		}
+		if t, ok := e.state(old).ghost["capset!"+id.Name]; ok {
+			return t
+		}
+		return Term{S: "false", Sort: "Bool"}
 	case "heapVersion":
 		return Term{S: e.state(old).hv, Sort: "Int"}
 	case "visited":
